@@ -224,6 +224,7 @@ def writeSites : List String := [
   "VerifyHashEnvelope: message.Headers.Protected[HeaderLabelPayloadHashAlgorithm]",
   "byteString.UnmarshalCBOR: *s",
   "init: decOpts.TagsMd",
+  "init: encOpts.BigIntConvert",
   "setHashEnvelopeProtectedHeader: header[HeaderLabelPayloadHashAlgorithm]",
   "setHashEnvelopeProtectedHeader: header[HeaderLabelPayloadLocation]",
   "setHashEnvelopeProtectedHeader: header[HeaderLabelPayloadPreimageContentType]",
